@@ -55,6 +55,19 @@ fn main() -> Result<(), String> {
     }
 }
 
+fn wait_for_tcp_listener(tcp_address: &str) {
+    for _ in 0..500 {
+        if std::net::TcpStream::connect(tcp_address).is_ok() {
+            return;
+        }
+        thread::sleep(std::time::Duration::from_millis(10));
+    }
+    log::warn!(
+        "The TCP listener {} did not come up in 5s, will ask to join anyway",
+        tcp_address
+    );
+}
+
 fn start_db(
     user: &str,
     pwd: &str,
@@ -141,6 +154,10 @@ fn start_db(
     let tcp_address_to_election = Arc::new(tcp_address.to_string());
     let external_tcpaddress = Arc::new(external_tcpaddress.to_string());
     let join_thread = thread::spawn(move || {
+        // The replicas connect back to this node as soon as they get the join request and drop it
+        // from the cluster if that connection is refused: wait for the TCP listener (it binds on
+        // its own thread) before asking
+        wait_for_tcp_listener(&tcp_address_to_election);
         nundb::replication_ops::ask_to_join_all_replicas(
             &replicate_address_to_thread,
             &tcp_address_to_election.to_string(),
